@@ -405,6 +405,74 @@ class D06(Extra):
         return ['dense', 'dense-sem:' + c['sem']]
 
 
+# ---------------------------------------------------------------- C07
+class D07(Extra):
+    RULE = ('dense-time iff/xor-free formulas (predicates over arithmetic terms) x signals: at every tick of the domain a strictly positive value reported by the '
+            'dense offline monitor (and, for past-time formulas, by the dense online monitor) requires satZ = true and a strictly negative one satZ = false, '
+            'satZ being the Boolean dense-time semantics of DenseSat.v')
+
+    def gen(self, rng, tier):
+        out = []
+        n = 150 if tier == 'quick' else 2500
+        P = ('pred', 'geq', ('var', 0), ('const', 1))
+        Q = ('pred', 'leq', ('var', 1), ('const', 2))
+        base = [('untilt', 2, 4, P, Q), ('untilt', 0, 4, P, Q), ('until', P, Q), ('since', P, Q), ('sincet', 2, 4, P, Q), ('alwt', 0, 4, ('evt', 0, 2, P)),
+                ('implies', P, ('evt', 2, 4, Q)), ('not', ('oncet', 0, 2, P)), ('hist', ('or', P, Q)), ('ev', ('and', P, ('not', Q)))]
+        items = [(f, 2) for f in base for _ in range(3)]
+        for _ in range(n):
+            nv = rng.choice([1, 2, 2])
+            f = gen_formula(rng, nv, rng.choice([1, 2, 2, 3]), iffxor=False)
+            if fml.size(f) > 22 or not fml.fvars(f):
+                continue
+            items.append((f, nv))
+        for (f, nv) in items:
+            nv = need_vars(f, nv)
+            out.append({'f': f, 'nv': nv, 'sigs': gen_sigs(rng, nv, minn=1), 'n': 0})
+        return out
+
+    def model_lines(self, c):
+        t0, tmax, tmin = domain(c['f'], c['sigs'])
+        return ['(satz %s (%s) %d %d)' % (fml.to_sx(c['f']), sigs_sx(c['sigs']), t0, max(tmax, t0) + 8)]
+
+    def impl_cases(self, c):
+        out = [offline_case(c['f'], c['sigs'], c['nv'])]
+        if not fml.has_future(c['f']):
+            out.append(online_case(c['f'], c['sigs'], c['nv']))
+        return out
+
+    def judge(self, c, mlines, ires):
+        m = parse_fields(mlines[0])
+        if 'ERROR' in m:
+            return 'model-error', mlines
+        if m['EXACT'] != ['1'] or m['DBOOL'] != ['1']:
+            return 'dropped', None
+        t0, tmax, tmin = domain(c['f'], c['sigs'])
+        sat = {t0 + i: (b == '1') for i, b in enumerate(m['SATZ'])}
+        det = {'spec': 'out = ' + text(c['f']), 'signals_ticks': c['sigs'], 'tick_s': dense.SCALE,
+               'expected': {'source': 'satZ (DenseSat.v): Boolean dense-time satisfaction per tick from the start of the domain', 'values': [int(sat[t]) for t in sorted(sat)]}}
+        for k, i in enumerate(ires):
+            mon = 'dense-offline' if k == 0 else 'dense-online'
+            if i['setup']['status'] != 'ok':
+                return 'violation', dict(det, monitor=mon, observed=i['setup'])
+            kk, v = call_value(i['calls'][0])
+            if kk != 'ok':
+                if k == 1 and D06().const_binary(c['f']):
+                    continue
+                return 'violation', dict(det, monitor=mon, observed=v)
+            if not v:
+                continue
+            hi = tmax if k == 0 else max([t for t, _ in v if t != math.inf] or [t0])
+            t = int(math.ceil(max(t0, v[0][0])))
+            while t <= hi:
+                x = dense.den(v, t)
+                if t in sat and isinstance(x, (int, float)) and x == x:
+                    if (x > 0 and not sat[t]) or (x < 0 and sat[t]):
+                        return 'violation', dict(det, monitor=mon, observed={'t': t * dense.SCALE, 'reported_robustness': x, 'satisfied': sat[t]},
+                                                 observed_value=i['calls'][0]['value'])
+                t += 1
+        return 'ok', None
+
+
 # ---------------------------------------------------------------- C10
 class D10(Extra):
     RULE = ('dense-time online monitors: past-time (and pastified bounded-future) formulas, a history of 0-3 update() batches, reset() (also twice, also before the '
